@@ -159,7 +159,9 @@ def tlc_scripts(module, cfg_path, wd, workers=4, timeout=600, simulate=None, see
                 continue
             seen.add(t)
             keep.append(s)
-        scripts = keep
+        # TLC prints every successor it generates (siblings of the walk too): keep the longest scripts, about 2 per walk
+        keep.sort(key=len, reverse=True)
+        scripts = keep[:2 * simulate[0]]
     return scripts
 
 
